@@ -63,7 +63,20 @@ class Path:
         p.rel = dict(self.rel)
         p.divcache = dict(self.divcache)
         return p
-    def interval(self, a):
+    def interval(self, a, _norel=False):
+        if not _norel and self.rel:
+            # x = d*q + r is known for a divided value x: the same expression written over (q, r) may have a tighter interval
+            # (x - d*(x/d) is just r); intersect
+            lo, hi = self.interval(a, True)
+            for _, (x, repl) in list(self.rel.items()):
+                if len(x.c) == 1 and x.k == 0:
+                    (v, cx), = x.c.items()
+                    if cx == 1 and v in a.c:
+                        m = a.c[v]
+                        a2 = a - Aff({v: m}) + repl.scale(m)
+                        l2, h2 = self.interval(a2, True)
+                        lo, hi = max(lo, l2), min(hi, h2)
+            return lo, hi
         lo = hi = a.k
         for v, x in a.c.items():
             l, h = self.ranges[v]
